@@ -137,6 +137,93 @@ func init() {
 			}
 		}
 	}
+	// the verdict depends on nothing else: not on earlier validations of the same object either.
+	// Build a claims-set from a1, validate it, change it IN PLACE into a2 (fields assigned, component
+	// objects overwritten through the pointers the container holds), validate again.
+	for _, p := range []int{1, 2} {
+		for b := 0; b < 4; b++ {
+			p, b := p, b
+			Scenarios[fmt.Sprintf("c01.inplace.p%d.b%d", p, b)] = func() (choice.Scenario, func() any) {
+				g := newCoarseGen(p, b)
+				return func(c *choice.Ctx) {
+					a1 := g.gen(c, "")
+					a2 := g.gen(c, "")
+					if a1.ProfileInvalid || a2.ProfileInvalid {
+						return
+					}
+					hasNil := func(a *refmodel.Claims) bool {
+						for _, sc := range a.Comps {
+							if sc == nil {
+								return true
+							}
+						}
+						return false
+					}
+					obj, err := realise(a1)
+					if err != nil {
+						return
+					}
+					// take the container apart so that its elements can be overwritten later
+					cont, ptrs, err := realCompsPtrs(a1)
+					if err != nil {
+						return
+					}
+					setCont := func(o psatoken.IClaims, cn psatoken.ISwComponents) {
+						switch x := o.(type) {
+						case *psatoken.P1Claims:
+							x.SwComponents = cn
+						case *psatoken.P2Claims:
+							x.SwComponents = cn
+						}
+					}
+					if !a1.CompsNil {
+						setCont(obj, cont)
+					}
+					var e1 error
+					if pn, _ := safely(func() { e1 = obj.Validate(); _ = getterVector(obj) }); pn {
+						return
+					}
+					c01stats.Trans.Add(1)
+					if (e1 == nil) != a1.Valid() {
+						return // the plain verdict is reported by the other scenarios
+					}
+					// in-place change to a2
+					tmp, err := realise(a2)
+					if err != nil {
+						return
+					}
+					sameShape := !a1.CompsNil && !a2.CompsNil && len(a1.Comps) == len(a2.Comps) && len(a1.Comps) > 0 && !hasNil(a1) && !hasNil(a2) && ptrs != nil
+					reflect.ValueOf(obj).Elem().Set(reflect.ValueOf(tmp).Elem())
+					how := "container-replaced"
+					if sameShape {
+						setCont(obj, cont) // keep the container that was validated before
+						for i, sc := range a2.Comps {
+							*ptrs[i] = *realComp(sc)
+						}
+						how = "components-overwritten-in-place"
+					}
+					var e2 error
+					if pn, _ := safely(func() { e2 = obj.Validate() }); pn {
+						return
+					}
+					c01stats.Trans.Add(1)
+					c01stats.StateStr("inplace|" + a1.String() + "|" + a2.String())
+					if (e2 == nil) != a2.Valid() {
+						w := "valid"
+						if !a2.Valid() {
+							w = a2.Check().String()
+						}
+						c.Failf(fmt.Sprintf("C01:verdict-depends-on-history:P%d:%s:%s", p, how, w), "after an earlier Validate()=%v the same object was changed in place; Validate()=%v but the reference model says %s\n before: %s\n now:    %s", e1, e2, w, a1.String(), a2.String())
+					} else if e2 == nil {
+						if gv, ev := getterVector(obj), expectedVector(a2); gv != ev {
+							c.Failf(fmt.Sprintf("C01:getters-depend-on-history:P%d:%s", p, how), "got  %s\nwant %s", gv, ev)
+						}
+					}
+					c01stats.Outcome("inplace:" + how)
+				}, nil
+			}
+		}
+	}
 	Checks["C01"] = func(r *evid.Run) {
 		registerStandardExt()
 		c01stats = NewStats()
@@ -149,6 +236,8 @@ func init() {
 				exploreChoice(r, fmt.Sprintf("c01.fine.p%d.b0", p), 3, dl)
 				exploreChoice(r, fmt.Sprintf("c01.fine.p%d.b1", p), 2, dl)
 				exploreChoice(r, fmt.Sprintf("c01.complist.p%d.b0", p), 2, dl)
+				exploreChoice(r, fmt.Sprintf("c01.inplace.p%d.b0", p), 2, dl)
+				exploreChoice(r, fmt.Sprintf("c01.inplace.p%d.b1", p), 2, dl)
 			}
 		} else {
 			for _, p := range []int{1, 2} {
@@ -159,6 +248,9 @@ func init() {
 				}
 				exploreChoice(r, fmt.Sprintf("c01.complist.p%d.b0", p), 3, dl)
 				exploreChoice(r, fmt.Sprintf("c01.complist.p%d.b1", p), 2, dl)
+				for b := 0; b < 4; b++ {
+					exploreChoice(r, fmt.Sprintf("c01.inplace.p%d.b%d", p, b), 3, dl)
+				}
 			}
 		}
 		c01stats.Publish(r)
